@@ -14,6 +14,17 @@ def generic(root, prop, tier, seed, res):
         for x in cf:
             if has_ctx(x["spec"]):
                 res.violations.append(x)
+    # variants of one definition (printings / sugar / equivalent rewrites) must all compile if one does
+    if prop in ("C02", "C10", "C16"):
+        for b in eng.batches:
+            failed = {(x["index"], x["variant"]) for x in b.compile_failures}
+            for x in b.compile_failures:
+                siblings = [e for e in b.map if e["index"] == x["index"] and (e["index"], e["variant"]) not in failed]
+                if siblings:
+                    y = dict(x)
+                    y["what"] = "variant '%s' does not compile although variant '%s' of the same definition does: %s" % (
+                        x["variant_label"], siblings[0]["label"], x["what"][:300])
+                    res.violations.append(y)
     return eng
 
 
